@@ -4,6 +4,7 @@
 
 mod compile_cmd;
 mod hir_cmd;
+mod ir_export;
 mod names_cmd;
 mod parse_cmd;
 mod query_cmd;
